@@ -8,6 +8,7 @@ package scen
 
 import (
 	"fmt"
+	"reflect"
 	"sort"
 	"strings"
 
@@ -29,6 +30,7 @@ var c16Specs = map[string]c16Field{
 	"b":  {"b", 5, -1, "gt"},
 	"c":  {"c", true, false, "eq"},
 	"d":  {"d", "dd", "d", "min"},
+	"e":  {"e", "ee", "e", "min"},
 }
 
 func c16Build(spec string) z.ZogSchema {
@@ -41,7 +43,7 @@ func c16Build(spec string) z.ZogSchema {
 		return z.Int().GT(0)
 	case "c":
 		return z.Bool().True()
-	case "d":
+	case "d", "e":
 		return z.String().Min(2)
 	}
 	panic("spec")
@@ -74,10 +76,18 @@ func (m *c16Model) String() string {
 }
 
 type c16Dest struct {
-	A string
-	B int
-	C bool
-	D string
+	A  string
+	B  int
+	C  bool
+	D  string
+	E1 string
+	E2 string
+	E3 string
+	E4 string
+	E5 string
+	E6 string
+	E7 string
+	E8 string
 }
 
 type c16World struct {
@@ -174,6 +184,8 @@ func (w *c16World) probe(i int, failing string) (string, string) {
 				gv = d.C
 			case "d":
 				gv = d.D
+			default:
+				gv = reflect.ValueOf(d).FieldByName(strings.ToUpper(k)).Interface()
 			}
 			if gv != f.valid {
 				got += fmt.Sprintf(" dest.%s=%v", k, gv)
@@ -359,6 +371,18 @@ func c16Scenario(depth, k, p int) mc.Scenario {
 						derive(s.Merge(w.live[j]), nm)
 					}})
 				}
+				// an operand larger than anything else in play (nine fields), one of them redefining "a": later operands win
+				ops = append(ops, op{"Merge(fresh nine-field Struct{a:Min(5), e1..e8})", func() {
+					sc := z.Schema{"a": c16Build("a5")}
+					nm := m.clone()
+					nm.fields["a"] = "a5"
+					for i := 1; i <= 8; i++ {
+						k := fmt.Sprintf("e%d", i)
+						sc[k] = c16Build("e")
+						nm.fields[k] = "e"
+					}
+					derive(s.Merge(z.Struct(sc)), nm)
+				}})
 				for nt := 0; nt <= 1; nt++ {
 					nt := nt
 					ops = append(ops, op{fmt.Sprintf("Merge(fresh Struct{d} with %d tests)", nt), func() {
@@ -499,7 +523,7 @@ func c16Depth(tier string) int {
 func init() {
 	Register(&Prop{
 		ID:    "C16",
-		Rule:  "one execution = one builder history: base Struct{a,b,c} with 0..3 tests and 0..2 PostTransforms appended one by one (capacities 0,1,2,4), then ≤depth events, each applied to any of ≤3 live schemas from {Pick(keys|map), Omit(keys|map), Extend(new field | overriding field | one shared three-field Schema value reused by every such call | nothing), Merge(other live schema | a fresh one-field schema with 0..1 tests and a PostTransform | two operands one of which has no fields but a failing test and a PostTransform, in either position [, more]), Test, TestFunc, PostTransform}; after every event every live schema is probed (all fields valid; first field failing) on the real code and compared with the model's hand-built equivalent (tests run, their order, PostTransforms run, issues, destination). every history is non-trivial; distinct = distinct final model states of all live schemas",
+		Rule:  "one execution = one builder history: base Struct{a,b,c} with 0..3 tests and 0..2 PostTransforms appended one by one (capacities 0,1,2,4), then ≤depth events, each applied to any of ≤3 live schemas from {Pick(keys|map), Omit(keys|map), Extend(new field | overriding field | one shared three-field Schema value reused by every such call | nothing), Merge(other live schema | a fresh one-field schema with 0..1 tests and a PostTransform | a fresh nine-field schema that redefines a field | two operands one of which has no fields but a failing test and a PostTransform, in either position [, more]), Test, TestFunc, PostTransform}; after every event every live schema is probed (all fields valid; first field failing) on the real code and compared with the model's hand-built equivalent (tests run, their order, PostTransforms run, issues, destination). every history is non-trivial; distinct = distinct final model states of all live schemas",
 		Floor: 50,
 		Bound: func(tier string) string { return fmt.Sprintf("all histories of depth ≤%d over ≤3 live schemas", c16Depth(tier)) },
 		Assumptions: []string{
